@@ -78,7 +78,7 @@ func genC13(t *testing.T) {
 		}
 		runCase(t, c, c13Hooks())
 	}
-	ivs := []int64{1_000_000, 1_000_000_000}
+	ivs := []int64{1_000_000, 1_000_000_000, 200_000, 1_000}
 	for _, ops := range []int{1, 2, 3, 4, 6} {
 		for _, iv := range ivs {
 			A := fmt.Sprintf("A%d", iv)
@@ -118,7 +118,7 @@ func genC13(t *testing.T) {
 	for i := 0; i < nr; i++ {
 		r := common.RngN("c13", uint64(i))
 		ops := 1 + r.IntN(6)
-		iv := ivs[r.IntN(2)]
+		iv := ivs[r.IntN(len(ivs))]
 		ln := r.IntN(61)
 		c := &caseT{N: ops, Tick: iv, Cap: r.IntN(5), Inputs: [][]int{ids(1000, ln)}, Comment: "random"}
 		steps := []string{fmt.Sprintf("A%d", iv), fmt.Sprintf("A%d", iv/2), fmt.Sprintf("A%d", iv/3+1), fmt.Sprintf("A%d", 2*iv+7)}
